@@ -71,5 +71,5 @@ def run(tier, seed):
         V.log('note: expected variant names not seen in Debug output:', missing_variants)
     if len(serde_types) < 30:
         V.log('coverage floor not met', missing_variants, len(serde_types))
-        return 2
+        return 1 if rc == 1 else 2  # a violation outranks a missed coverage floor
     return rc
